@@ -378,3 +378,19 @@ pub async fn lb_stress(args: &[&str]) -> String {
     w.log.lock().unwrap().clear();
     total.into_iter().map(|(k, v)| format!("{}={}", hex(k.as_bytes()), v)).collect::<Vec<_>>().join(",")
 }
+
+// idle_check <period_s> <client_delta_ms> <server_delta_ms>: ContextStatistics::is_timeout on two fresh statistics
+// whose last_read is placed delta ms from the wall clock (negative = in the past)
+pub fn idle_check(args: &[&str]) -> String {
+    let period: u64 = args[0].parse().unwrap();
+    let dc: i64 = args[1].parse().unwrap();
+    let ds: i64 = args[2].parse().unwrap();
+    let c = crate::context::ContextStatistics::default();
+    let s = crate::context::ContextStatistics::default();
+    c.verif_shift_last_read(dc);
+    s.verif_shift_last_read(ds);
+    let t = std::time::Duration::from_secs(period);
+    let tc = c.is_timeout(t);
+    let ts = s.is_timeout(t);
+    format!("OK c={} s={} close={}", tc, ts, ts && tc)
+}
